@@ -188,12 +188,11 @@ theorem ofBits_isF64 (b : Nat) (hf : (F64.ofBits b).isFinite = true) :
 
 /-! ## T4 — corollaries for the arithmetic of number.rs -/
 
-/-- **T4 (float contagion, exact).** When a float meets an integer operand (any encoding, value in
-i128) under `+ - *`, the engine model with `softOps` returns the float that T2 describes for the
-float operand and the integer converted by round-to-nearest-even (`F64.ofIntRNE`,
-`C13_int_to_float_nearest`): the correctly rounded exact sum / difference / product. Both operand
-orders. -/
-theorem float_contagion_exact (p : F64 → F64 → F64) (x : F64) {v : Value} {n : Int}
+/-- **T4 (float contagion).** When a float meets an integer operand (any encoding, value in i128)
+under `+ - *`, the engine model with `softOps` computes the soft-float operation on the float
+operand and the integer converted by round-to-nearest-even (`F64.ofIntRNE`,
+`C13_int_to_float_nearest`), for every float operand (also infinities and NaN), both orders. -/
+theorem float_contagion_soft (p : F64 → F64 → F64) (x : F64) {v : Value} {n : Int}
     (hv : C13.IntVal v n) (hn : inI128 n) :
     Tera.add (softOps p) (.f64 x) v = .ok (.f64 (SoftFloat.add x (F64.ofIntRNE n))) ∧
     Tera.add (softOps p) v (.f64 x) = .ok (.f64 (SoftFloat.add (F64.ofIntRNE n) x)) ∧
@@ -207,8 +206,32 @@ theorem float_contagion_exact (p : F64 → F64 → F64) (x : F64) {v : Value} {n
   obtain ⟨b1, b2, b3⟩ := C13.C13_float_contagion (softOps p) v (.f64 x) (.int n) (.float x) hi hx (Or.inr rfl)
   exact ⟨a1, b1, a2, b2, a3, b3⟩
 
-/-- The integer operand after conversion is finite, so T2 applies to the results above. -/
-theorem ofIntRNE_finite (n : Int) : (F64.ofIntRNE n).isFinite = true := rfl
+/-- **T4 (float contagion, exact).** For a finite float operand `x` and an integer operand of
+value `n` (any encoding, in i128), with `y = F64.ofIntRNE n` the integer rounded to nearest-even:
+`x + n`, `x - n`, `n - x`, `x * n` in the engine model are the exact sum / difference / product of
+the exact values of `x` and `y`, rounded once (T1), with the IEEE sign for exact zero results. -/
+theorem float_contagion_exact (p : F64 → F64 → F64) (x : F64) (hx : x.isFinite = true)
+    {v : Value} {n : Int} (hv : C13.IntVal v n) (hn : inI128 n) :
+    Tera.add (softOps p) (.f64 x) v = .ok (.f64
+      (if sumNum x (F64.ofIntRNE n) = 0 then zero (signBit x && signBit (F64.ofIntRNE n))
+       else roundDyadic (decide (sumNum x (F64.ofIntRNE n) < 0)) (sumNum x (F64.ofIntRNE n)).natAbs
+         (x.den * (F64.ofIntRNE n).den))) ∧
+    Tera.sub (softOps p) (.f64 x) v = .ok (.f64
+      (if diffNum x (F64.ofIntRNE n) = 0 then zero (signBit x && !signBit (F64.ofIntRNE n))
+       else roundDyadic (decide (diffNum x (F64.ofIntRNE n) < 0)) (diffNum x (F64.ofIntRNE n)).natAbs
+         (x.den * (F64.ofIntRNE n).den))) ∧
+    Tera.sub (softOps p) v (.f64 x) = .ok (.f64
+      (if diffNum (F64.ofIntRNE n) x = 0 then zero (signBit (F64.ofIntRNE n) && !signBit x)
+       else roundDyadic (decide (diffNum (F64.ofIntRNE n) x < 0)) (diffNum (F64.ofIntRNE n) x).natAbs
+         ((F64.ofIntRNE n).den * x.den))) ∧
+    Tera.mul (softOps p) (.f64 x) v = .ok (.f64
+      (roundDyadic (signBit x != signBit (F64.ofIntRNE n)) (x.num * (F64.ofIntRNE n).num).natAbs
+        (x.den * (F64.ofIntRNE n).den))) := by
+  obtain ⟨a1, _, a3, a4, a5, _⟩ := float_contagion_soft p x hv hn
+  have hy : (F64.ofIntRNE n).isFinite = true := rfl
+  rw [a1, a3, a4, a5, add_correctly_rounded x _ hx hy, sub_correctly_rounded x _ hx hy,
+    sub_correctly_rounded _ x hy hx, mul_correctly_rounded x _ hx hy]
+  exact ⟨rfl, rfl, rfl, rfl⟩
 
 /-- **T4 (`/` with an integer operand).** With a non-zero divisor, `/` on a float and an integer
 (either order), or on two integers, is the soft-float quotient of the converted operands. -/
